@@ -1,0 +1,104 @@
+//go:build verif
+
+package bloomsearch
+
+// Exported wrappers over unexported row-semantics code, for the verification
+// harness. No logic of their own.
+
+import "github.com/tidwall/gjson"
+
+// VerifEmission is one emission of the shared path walker.
+type VerifEmission struct {
+	Path string
+	// Kind: 0 container / key-prefix (isLeaf=false), 1 leaf without token text (null), 2 leaf with text
+	Kind int
+	Text string
+}
+
+// VerifWalk runs the production walker over a marshaled row.
+func VerifWalk(rowBytes []byte) []VerifEmission {
+	var w pathWalker
+	var out []VerifEmission
+	w.walk(gjson.ParseBytes(rowBytes), ".", func(path []byte, value gjson.Result, isLeaf bool) bool {
+		e := VerifEmission{Path: string(path)}
+		if isLeaf {
+			if text, ok := leafTokenInput(value); ok {
+				e.Kind, e.Text = 2, text
+			} else {
+				e.Kind = 1
+			}
+		}
+		out = append(out, e)
+		return true
+	})
+	return out
+}
+
+// VerifIndexRow returns the bloom entries ingest indexing records for a row.
+func VerifIndexRow(rowBytes []byte, tokenizer ValueTokenizerFunc) (fields, tokens, fieldTokens []string) {
+	s := newBloomEntrySets()
+	s.indexRow(rowBytes, tokenizer)
+	for e := range s.fields {
+		fields = append(fields, e)
+	}
+	for e := range s.tokens {
+		tokens = append(tokens, e)
+	}
+	for e := range s.fieldTokens {
+		fieldTokens = append(fieldTokens, e)
+	}
+	return
+}
+
+// VerifFastTokens is the zero-alloc default-tokenizer path (forEachWord + appendFoldedWord).
+func VerifFastTokens(text string) []string {
+	var out []string
+	var buf []byte
+	forEachWord(text, func(word string) bool {
+		buf = appendFoldedWord(buf[:0], word)
+		out = append(out, string(buf))
+		return true
+	})
+	return out
+}
+
+// VerifMatchRow compiles the query's row matcher exactly as Query does and
+// matches one marshaled row.
+func VerifMatchRow(query *Query, rowBytes []byte, tokenizer ValueTokenizerFunc) (bool, error) {
+	rowBloomQuery := query.Bloom
+	if rowBloomQuery == nil {
+		rowBloomQuery = &BloomQuery{}
+	}
+	compiled, err := compileRegexQuery(query.Regex)
+	if err != nil {
+		return false, err
+	}
+	m := compileRowMatcher(rowBloomQuery, compiled, ".", tokenizer)
+	return m.matchRowBytes(rowBytes, newRowMatchScratch(m)), nil
+}
+
+// VerifReferenceMatchRow is the set-based reference evaluator (tokenizer.go).
+func VerifReferenceMatchRow(query *Query, rowBytes []byte, tokenizer ValueTokenizerFunc) (bool, error) {
+	compiled, err := compileRegexQuery(query.Regex)
+	if err != nil {
+		return false, err
+	}
+	return testGJSONForQuery(gjson.ParseBytes(rowBytes), query.Bloom, compiled, ".", tokenizer), nil
+}
+
+// VerifPruneQuery is the bloom query Query uses to prune files and blocks.
+func VerifPruneQuery(query *Query) *BloomQuery {
+	rowBloomQuery := query.Bloom
+	if rowBloomQuery == nil {
+		rowBloomQuery = &BloomQuery{}
+	}
+	return AndBloomQueries(rowBloomQuery, RegexFieldGuardBloomQuery(query.Regex))
+}
+
+// VerifEvaluateBloomFilters is evaluateBloomFilters.
+func (b *BloomSearchEngine) VerifEvaluateBloomFilters(filters *BloomFilters, q *BloomQuery) bool {
+	return b.evaluateBloomFilters(filters.FieldBloomFilter, filters.TokenBloomFilter, filters.FieldTokenBloomFilter, q)
+}
+
+// VerifMaterializeRow is materializeRow.
+func VerifMaterializeRow(rowBytes []byte) (map[string]any, error) { return materializeRow(rowBytes) }
